@@ -1,4 +1,4 @@
-CONSTANT MAXN = 4
+CONSTANT MAXN = 6
 SPECIFICATION Spec
 INVARIANTS FormIndependent ImplLaws EmitPlan
 CHECK_DEADLOCK FALSE
